@@ -596,3 +596,47 @@ func VerifFindCellOffset(v VerifNode, key uint32) (pos int, found bool, panicMsg
 	pos, found = verifToNode(v).findCellOffsetByKey(key)
 	return pos, found, ""
 }
+
+// VerifHeaderSave writes the header fields through fileStore.save into a fresh file at path and
+// returns the bytes of the file.
+func VerifHeaderSave(path string, h VerifHeader) (raw []byte, err error, panicMsg string) {
+	defer func() {
+		if r := recover(); r != nil {
+			panicMsg = fmt.Sprint(r)
+		}
+	}()
+	os.Remove(path)
+	fs, err := newFileStore(path, false)
+	if err != nil {
+		return nil, err, ""
+	}
+	fs.lastKey, fs.pageTableRoot, fs.nextFreeOffset, fs._nextLSN = h.LastKey, h.PageTableRoot, h.NextFree, h.NextLSN
+	err = fs.save()
+	fs.file.Close()
+	if err != nil {
+		return nil, err, ""
+	}
+	raw, err = os.ReadFile(path)
+	return raw, err, ""
+}
+
+// VerifHeaderOpen puts raw into a fresh file at path and reads the header through fileStore.open.
+func VerifHeaderOpen(path string, raw []byte) (h VerifHeader, err error, panicMsg string) {
+	defer func() {
+		if r := recover(); r != nil {
+			panicMsg = fmt.Sprint(r)
+		}
+	}()
+	if err := os.WriteFile(path, raw, 0644); err != nil {
+		return h, err, ""
+	}
+	fs, err := newFileStore(path, false)
+	if err != nil {
+		return h, err, ""
+	}
+	defer fs.file.Close()
+	if err := fs.open(); err != nil {
+		return h, err, ""
+	}
+	return VerifHeader{fs.lastKey, fs.pageTableRoot, fs.nextFreeOffset, fs._nextLSN}, nil, ""
+}
